@@ -79,7 +79,7 @@ def _case(draw, tier):
             for n in nodes:
                 if n["k"] == "graph" and n.get("map"):
                     n["fan"] = min(6, max(n.get("fan", 1), k + 1))
-    pre = draw(st.sampled_from([None, None, None, "empty_map", "zip_error", "failing_map", "failing_map"]))
+    pre = draw(st.sampled_from([None, None, None, "empty_map", "zip_error", "failing_map", "failing_map", "earlier_loop", "earlier_loop"]))
     return {"nodes": nodes, "k": k, "via_map": prob(draw, 0.3), "nitems": draw(st.integers(1, 6)),
             "sched": draw(st.lists(st.integers(0, 9), max_size=80)), "adversarial": prob(draw, 0.8),
             "pre": pre, "pre_k": draw(st.integers(1, 8)),
@@ -201,6 +201,17 @@ def check_case(case, ev):
 
     ctx = Ctx(compact=True)
     g = make_graph(ctx, {"nodes": nodes}, "async")
+    the_runner = None
+    if case.get("pre") == "earlier_loop":
+        # the same runner object has already served a bounded map with the same limit in an EARLIER event loop (contended:
+        # more items than slots); nothing bound to that loop may be reused
+        labels.add("pre:earlier_loop")
+        the_runner = AsyncRunner()
+        try:
+            asyncio.run(the_runner.map(g, {**vals, "x": [("e", j) for j in range(k + 2)]}, map_over="x", max_concurrency=k, error_handling="continue"))
+        except Exception as e:  # noqa: BLE001
+            raise Violation("c15.raised", f"[earlier loop] bounded map raised {type(e).__name__}: {str(e)[:200]}") from None
+        ctx.reset()
     pre = None
     pre_inside = None
     phase = {"limit": k}
@@ -222,7 +233,7 @@ def check_case(case, ev):
             ctx.peak = ctx.inflight
             ctx.log.clear()
 
-    elif case.get("pre"):
+    elif case.get("pre") in ("empty_map", "zip_error"):
         # an earlier bounded call awaited from the same task that ends without executing anything: an empty batch
         # (returns []) or a zip-length mismatch (raises).  Whatever limit it installed must be gone afterwards.
         labels.add("pre:" + case["pre"])
@@ -237,7 +248,7 @@ def check_case(case, ev):
                 pre_state["error"] = e
 
     out, sched = run_scheduled(ctx, g, mvals, case["sched"], adversarial=case["adversarial"], method=method, on_quiescent=on_q, max_concurrency=k, pre=pre, pre_inside=pre_inside,
-                               **kw, **run_kw)
+                               runner=the_runner, **kw, **run_kw)
     if case.get("pre") == "empty_map" and pre_state.get("result") != []:
         raise Violation("c15.empty_map", f"map over an empty list gave {pre_state}")
     tag = f"k={k} width={width} depth={depth} {method}"
